@@ -67,14 +67,14 @@ Section Breaks.
   Lemma skip_breaks_spec bs t f0 :
     exists dropped,
       bs = dropped ++ fst (skip_breaks bs t f0) /\
-      Forall (fun b => D.lt (bk_end b) t = true) dropped /\
+      Forall (fun b => D.lt (bp_end b) t = true) dropped /\
       (match fst (skip_breaks bs t f0) with
-       | b :: _ => D.lt (bk_end b) t = false | [] => True end) /\
+       | b :: _ => D.lt (bp_end b) t = false | [] => True end) /\
       snd (skip_breaks bs t f0) = (f0 || negb (Nat.eqb (length dropped) 0)).
   Proof.
     revert f0. induction bs as [|b r IH]; intros f0; cbn [skip_breaks].
     - exists []. cbn. rewrite orb_false_r. repeat split; constructor.
-    - destruct (D.lt (bk_end b) t) eqn:E.
+    - destruct (D.lt (bp_end b) t) eqn:E.
       + destruct (IH true) as (d & H1 & H2 & H3 & H4).
         exists (b :: d). cbn [app length fst snd]. repeat split.
         * f_equal. exact H1.
@@ -118,7 +118,7 @@ Section Breaks.
     destruct (skip_breaks bs (start h) false) as [bs' f]. cbn [combine map fst snd]. rewrite IH. reflexivity.
   Qed.
 
-  Definition ended_before (b : BreakPeriod) (t : F64) : bool := D.lt (bk_end b) t.
+  Definition ended_before (b : BreakPeriod) (t : F64) : bool := D.lt (bp_end b) t.
 
   (* breaks are in chronological order of their ends, as seen by every threshold *)
   Definition breaks_chrono (bs : list BreakPeriod) : Prop :=
